@@ -2,7 +2,10 @@
 (* Exhaustive model of one direction of a SecretConnection (SecretConn.tla, part 2):  *)
 (* every interleaving of Write(n), Close, Read(n) and of the man-in-the-middle        *)
 (* manipulations Flip / Drop / Dup / Swap / CutTail / CutHead / Replay / Inject on    *)
-(* the unread wire, within the bounds given by the constants.  `hist` (the path) is   *)
+(* the unread wire, and of FAULTS OF THE UNDERLYING CONNECTION (a frame write that      *)
+(* reports an error although all / a prefix / none of the frame went out, a read that   *)
+(* fails mid-frame; the application keeps using the connection), within the bounds      *)
+(* given by the constants.  `hist` (the path) is                                        *)
 (* hidden by the VIEW; every transition that ends in a Read is printed by the action  *)
 (* constraint Dump and replayed on a real MakeSecretConnection pair whose wire is     *)
 (* owned by the Go driver (harness/conn TestStream): each step's result and, for      *)
@@ -19,7 +22,12 @@ CONSTANTS WSizes,     \* sizes a Write may have
           InjKinds,   \* what Inject inserts: "rev" frame of the reverse direction with the expected nonce,
                       \* "old" frame with the expected nonce from an earlier session of the same two keys, "junk" noise
                       \* (the history carries recvNonce so that the driver can pick that frame)
-          MaxWire     \* manipulations address wire positions 1..MaxWire only
+          MaxWire,    \* manipulations address wire positions 1..MaxWire only
+          MaxFaults,  \* faults of the underlying connection (write and read side together)
+          FaultPass,  \* WriteFault: how many of the failed frame's 1044 sealed bytes reach the wire (0 none .. 1044 all)
+          RFaultAt,   \* ReadFault: after how many bytes of the frame the underlying read fails
+          ReuseNonce  \* FALSE = the code (Seal; incrNonce; conn.Write).  TRUE = nonce consumed only by a successful write:
+                      \* checks/C20.py requires TLC to find the counterexamples to NoNonceReuseInv and Inv
 
 AllKinds == {"flip", "drop", "dup", "swap", "cutt", "cuth", "replay", "inject"}
 
@@ -28,40 +36,55 @@ INSTANCE SecretConn WITH Honest <- {"A"}, Adv <- "M", SessOwner <- <<>>, SessEph
 
 VARIABLES s,      \* the stream state (SecretConn!EmptyStream ...)
           nw, nr, \* Writes / Reads so far
+          nf,     \* faults so far
           hist    \* the path: <<action, args..., result>>
-vars == <<s, nw, nr, hist>>
+vars == <<s, nw, nr, nf, hist>>
 
-Init == s = EmptyStream /\ nw = 0 /\ nr = 0 /\ hist = <<>>
+Init == s = EmptyStream /\ nw = 0 /\ nr = 0 /\ nf = 0 /\ hist = <<>>
 
 Step(r, a) == s' = r.st /\ hist' = Append(hist, a \o r.res)
 
 Pos == 1..Min(Len(s.wire), MaxWire)
 
 DoWrite == \E n \in WSizes : /\ ~s.closed /\ nw < MaxWrites
-                             /\ Step(WriteOp(s, n), <<"w", n, 0, 0>>) /\ nw' = nw + 1 /\ UNCHANGED nr
-DoClose == /\ ~s.closed /\ nw > 0 /\ Step(CloseOp(s), <<"c", 0, 0, 0>>) /\ UNCHANGED <<nw, nr>>
+                             /\ Step(WriteOp(s, n), <<"w", n, 0, 0>>) /\ nw' = nw + 1 /\ UNCHANGED <<nr, nf>>
+\* Write(n) whose k-th underlying frame write fails after c bytes; the application goes on writing afterwards
+DoWriteFault == \E n \in WSizes \ {0} : \E k \in 1..NumFrames(n), c \in FaultPass :
+                             /\ ~s.closed /\ nw < MaxWrites /\ nf < MaxFaults
+                             /\ Step(WriteFaultOp(s, n, k, c, ReuseNonce), <<"wf", n, k, c>>)
+                             /\ nw' = nw + 1 /\ nf' = nf + 1 /\ UNCHANGED nr
+DoClose == /\ ~s.closed /\ nw > 0 /\ Step(CloseOp(s), <<"c", 0, 0, 0>>) /\ UNCHANGED <<nw, nr, nf>>
 DoRead  == \E n \in RSizes : /\ ReadEnabled(s) /\ nr < MaxReads
-                             /\ Step(ReadOp(s, n), <<"r", n, 0, 0>>) /\ nr' = nr + 1 /\ UNCHANGED nw
-DoManip == /\ s.nm < MaxManip /\ UNCHANGED <<nw, nr>>
+                             /\ Step(ReadOp(s, n), <<"r", n, 0, 0>>) /\ nr' = nr + 1 /\ UNCHANGED <<nw, nf>>
+\* Read(n) whose underlying read fails after c bytes of the frame; the application reads again afterwards
+DoReadFault == \E n \in RSizes, c \in RFaultAt :
+                             /\ ReadFaultEnabled(s, c) /\ nr < MaxReads /\ nf < MaxFaults
+                             /\ Step(ReadFaultOp(s, c), <<"rf", n, c, 0>>)
+                             /\ nr' = nr + 1 /\ nf' = nf + 1 /\ UNCHANGED nw
+DoManip == /\ s.nm < MaxManip /\ UNCHANGED <<nw, nr, nf>>
            /\ \/ "flip" \in Kinds /\ \E j \in Pos, o \in FlipOffs : CanFlip(s, j, o) /\ Step(Flip(s, j, o), <<"flip", j, o, 0>>)
               \/ "drop" \in Kinds /\ \E j \in Pos : Step(Drop(s, j), <<"drop", j, 0, 0>>)
               \/ "dup" \in Kinds /\ \E j \in Pos : Step(Dup(s, j), <<"dup", j, 0, 0>>)
               \/ "swap" \in Kinds /\ \E j, k \in Pos : j < k /\ Step(Swap(s, j, k), <<"swap", j, k, 0>>)
               \/ "cutt" \in Kinds /\ \E j \in Pos, c \in CutOffs : CanCut(s, j, c) /\ Step(CutTail(s, j, c), <<"cutt", j, c, 0>>)
               \/ "cuth" \in Kinds /\ \E j \in Pos, c \in CutOffs : CanCut(s, j, c) /\ Step(CutHead(s, j, c), <<"cuth", j, c, 0>>)
-              \/ "replay" \in Kinds /\ \E j \in 1..(Min(Len(s.wire), MaxWire) + 1), i \in 1..Len(s.sent) :
+              \/ "replay" \in Kinds /\ \E j \in 1..(Min(Len(s.wire), MaxWire) + 1), i \in Recorded(s) :
                                             Step(Replay(s, j, i), <<"replay", j, i, 0>>)
               \/ "inject" \in Kinds /\ \E j \in 1..(Min(Len(s.wire), MaxWire) + 1), k \in InjKinds :
                                             Step(Inject(s, j), <<"inject", j, s.rn, k>>)
 
-Next == DoWrite \/ DoClose \/ DoRead \/ DoManip
+Next == DoWrite \/ DoWriteFault \/ DoClose \/ DoRead \/ DoReadFault \/ DoManip
 Spec == Init /\ [][Next]_vars
-View == <<s, nw, nr>>
+View == <<s, nw, nr, nf>>
 
 \* ---- C20 on the stream ----
 Inv == /\ DeliveredIsPrefixOfSent(s)
        /\ OnlyGenuineFramesOpen(s)
        /\ CleanIsComplete(s)
+       /\ NoNonceReuse(s)
+\* separately, for the expected counterexamples with ReuseNonce = TRUE
+NoNonceReuseInv == NoNonceReuse(s)
+PrefixInv       == DeliveredIsPrefixOfSent(s)
 \* a Read that has to go to the wire succeeds iff the next 1044 bytes are the next genuine frame; otherwise it
 \* reports an error and hands out nothing ("detected as an error rather than delivered")
 TamperDetected == [][\A n \in RSizes :
@@ -69,7 +92,7 @@ TamperDetected == [][\A n \in RSizes :
                           (ReadOp(s, n).res[1] = "err" /\ ReadOp(s, n).st.dl = s.dl /\ ReadOp(s, n).st.rb.len = 0)]_vars
 
 \* printed: transitions whose last action is a Read (the earlier steps are checked on the way)
-Dump == IF hist'[Len(hist')][1] = "r"
+Dump == IF hist'[Len(hist')][1] \in {"r", "rf"}
         THEN PrintT(ToJson([h |-> hist', d |-> DeliveredBytes(s'), e |-> s'.errs]))
         ELSE TRUE
 ==================================================================================
